@@ -93,6 +93,18 @@ static void scen_c08(int histories, int maxops) {
             r = run(&b); tr("d op=auth ent=exempt ok=1 commits=1 rc=%u stores=%ld", r.rc, g_store_in_cmd);
             r = c08_nv_write(&b, C08_IDX_POL, "pp"); tr("d op=auth ent=da ok=1 commits=1 rc=%u stores=%ld", r.rc, g_store_in_cmd); } }
         if (chance(70)) c08_params(&b, 1, c08_pick(MT, 7), c08_pick(RT, 7), c08_pick(LR, 5));
+        if (h % 3 == 0) {   /* drill: a failed lockoutAuth must keep lockoutAuth disabled across an ORDERLY restart (timers are rebased there) */
+            c08_params(&b, 1, 5, 1000, 1000 + rnd(5000));
+            clock_advance_ms(3000 + rnd(20000)); c08_host();
+            c08_lockreset(&b, 0); c08_caps(&b);
+            int su = rnd(2); Rsp r = tpm2_shutdown(&b, su); tr("d op=shutdown su=%d rc=%u stores=%ld", su, r.rc, g_store_in_cmd);
+            if (chance(50)) { g_mono_ns = (1 + rnd(2000)) * 1000000ULL; c08_host(); }
+            TPM_RESULT ret = tpm2_powercycle(); tr("restart ret=%u orderly=1", ret);
+            r = tpm2_startup(&b, su); tr("d op=startup su=%d rc=%u stores=%ld", su, r.rc, g_store_in_cmd);
+            if (r.rc != 0) { r = tpm2_startup(&b, 0); tr("d op=startup su=0 rc=%u stores=%ld", r.rc, g_store_in_cmd); }
+            clock_advance_ms(rnd(2000)); c08_host();
+            c08_lockreset(&b, 1); c08_caps(&b);
+        }
         int n = 10 + rnd(maxops);
         for (int i = 0; i < n; i++) {
             if (chance(55)) {
